@@ -41,7 +41,7 @@ func (fv *FV) oblige(st *State, kind, detail string, pos token.Pos, goal Term, c
 	}
 	o := &Obligation{Func: fv.short, Kind: kind, Detail: detail, Pos: pos, PosStr: fv.eng.pos(pos),
 		script: st.script, goal: goal, Path: st.path, Clause: clause}
-	fv.obls = append(fv.obls, o)
+	fv.addObl(st, o)
 	st.assume(goal)
 }
 
@@ -316,6 +316,17 @@ func (fv *FV) assignHeapStatic(e Expr, spec *FuncSpec, fn *ssa.Function, c *ssa.
 		}
 		return nil, nil, false
 	case *ECall:
+		if x.Fn == "mapsof" && len(x.Args) == 1 {
+			if s, ok := x.Args[0].(*EStr); ok {
+				if gt, err := fv.eng.resolveType(s.V, spec.PkgName); err == nil {
+					if m, ok := gt.Underlying().(*types.Map); ok {
+						ks, vs := fv.sortOf(m.Key()), fv.sortOf(m.Elem())
+						return []string{mapValHeap(ks, vs), mapDomHeap(ks, vs)}, []string{arraySort(SInt, arraySort(ks, vs)), arraySort(SInt, arraySort(ks, SBool))}, true
+					}
+				}
+			}
+			return nil, nil, false
+		}
 		if x.Fn == "contents" && len(x.Args) == 1 {
 			mt := fv.staticTypeOf(x.Args[0], spec, fn, c)
 			if mt == nil {
@@ -544,6 +555,7 @@ func (fv *FV) Verify() {
 		fv.outsidef("contract error: %s", strings.Join(errs, "; "))
 		return
 	}
+	fv.entryScript = st.script
 	fv.run(st)
 }
 
@@ -612,8 +624,19 @@ func (fv *FV) run(st0 *State) {
 		}
 		for st != nil {
 			var forks []*State
+			cur := st
 			st, forks = fv.step(st)
 			work = append(work, forks...)
+			if st == nil {
+				fv.leaves = append(fv.leaves, cur.script)
+			}
 		}
 	}
+}
+
+// addObl registers an obligation and leaves a marker in the path script (used for batched solving).
+func (fv *FV) addObl(st *State, o *Obligation) {
+	o.id = len(fv.obls)
+	fv.obls = append(fv.obls, o)
+	st.emit(fmt.Sprintf(";;OBL %d", o.id))
 }
